@@ -1687,8 +1687,9 @@ Witness:\n{self.witness}
                 if len(script_sig_commands) - 1 >= num_sigs:
                     break
             # make sure we have enough sigs to pass validation
-            if len(script_sig_commands) < num_sigs:
-                raise RuntimeError("Not enough signatures provided for p2wsh")
+            # the first command is the OP_0 for the OP_CHECKMULTISIG off-by-one error
+            if len(script_sig_commands) - 1 < num_sigs:
+                raise RuntimeError("Not enough signatures provided for p2sh")
             # add the raw redeem script as the last command for p2sh execution
             script_sig_commands.append(self.redeem_script.raw_serialize())
             # change the ScriptSig to be a Script with the commands we've gathered
